@@ -238,6 +238,10 @@ def run_first_touch(res, tier, seed, workdir):
         perset = {}
         label = "C14_first." + flavour
         for i, js, rc, cmd in results:
+            if js is None and isinstance(rc, int) and rc < 0:      # died on a signal while first-touching concurrently: a violation, not a harness failure
+                res.add_viol(dict(key="crash:C14/first-touch/signal%d" % -rc, **{"class": "first-touch"}, run=label, section="first-touch", idx=plan[i][1],
+                                  seed=plan[i][0], flavour=flavour, harness="harness/C14_first.cpp", detail=dict(cmd=" ".join(cmd))))
+                continue
             if js is None or rc != 0:
                 res.inconclusive.append("%s process %d: exit %s, no result (%s)" % (label, i, rc, " ".join(cmd)[:300]))
                 continue
@@ -264,6 +268,77 @@ def run_first_touch(res, tier, seed, workdir):
         res.runs.append(dict(run=label, flavour=flavour, processes=len(plan), wall_s=round(time.time() - t0, 1)))
     return out
 
+
+
+# ------------------------------------------------------------------------------------------ fault-construction trials (thread-safe Geoid)
+def run_fault(res, tier, seed, workdir):
+    """harness/C14_fault.cpp, one PROCESS per trial: Geoid(threadsafe = true) constructed while the k-th allocation fails; if the
+    constructor delivers an object it must be thread safe (T threads on it, bit-identical to the reference, TSan watching)"""
+    out = {}
+    for flavour in ("tsan", "o2"):
+        exe = vbuild.harness("harness/C14_fault.cpp", flavour)
+        n = int(subprocess.run([exe, "--tier", tier, "--seed", str(seed), "--count"], stdout=subprocess.PIPE, text=True, check=True).stdout)
+        label = "C14_fault." + flavour
+        wd = os.path.join(workdir, label)
+        os.makedirs(wd, exist_ok=True)
+        env = dict(os.environ)
+        env["TSAN_OPTIONS"] = _TSAN
+        env["TMPDIR"] = wd
+
+        def one(i):
+            cmd = [exe, "--tier", tier, "--seed", str(seed), "--only", "fault:%d" % i]
+            with open(os.path.join(wd, "%d.err" % i), "wb") as ef:
+                try:
+                    r = subprocess.run(cmd, stdout=subprocess.PIPE, stderr=ef, env=env, cwd=wd, timeout=900)
+                except subprocess.TimeoutExpired:
+                    return i, None, "timeout", cmd
+            try:
+                return i, json.loads(r.stdout.decode().strip().splitlines()[-1]), r.returncode, cmd
+            except Exception:
+                return i, None, r.returncode, cmd
+
+        t0 = time.time()
+        with ThreadPoolExecutor(6) as ex:
+            results = list(ex.map(one, range(n)))
+        outcomes, evals, mism, hit = {}, 0, 0, 0
+        for i, js, rc, cmd in results:
+            if js is None and isinstance(rc, int) and rc < 0:
+                # the trial process died on a signal (e.g. std::terminate from an exception escaping a worker thread, SIGSEGV):
+                # a crash of concurrent const calls on a delivered object is a violation, not a harness failure
+                res.add_viol(dict(key="crash:C14/fault/signal%d" % -rc, **{"class": "fault-construction"}, run=label, section="fault", idx=i, seed=seed,
+                                  flavour=flavour, harness="harness/C14_fault.cpp", detail=dict(cmd=" ".join(cmd))))
+                continue
+            if js is None or rc != 0:
+                res.inconclusive.append("%s process %d: exit %s, no result (%s)" % (label, i, rc, " ".join(cmd)[:300]))
+                continue
+            oc = js["outcome"] + ("/fault-hit" if js["fault_hit"] else "/no-fault")
+            outcomes[oc] = outcomes.get(oc, 0) + 1
+            hit += bool(js["fault_hit"])
+            evals += js["evals"]; mism += js["mismatches"]
+            common = dict(run=label, section="fault", idx=i, seed=seed, flavour=flavour, harness="harness/C14_fault.cpp")
+            det = dict(cmd=" ".join(cmd), **{k: js[k] for k in ("gw", "gh", "cubic", "threads", "allocations_of_faultfree_ctor", "failing_allocation", "outcome", "what")})
+            if js["outcome"] == "other-exception":
+                res.add_viol(dict(key="exception:C14/fault/geoid-threadsafe-constructor-foreign-exception", **{"class": "fault-construction"}, detail=det, **common))
+            if js["outcome"] == "refused" and not js["fault_hit"] or js["outcome"] == "refused-bad_alloc" and not js["fault_hit"]:
+                res.inconclusive.append("%s trial %d: fault-free control construction was refused (%s)" % (label, i, js["what"]))
+            if not js["threadsafe_implies_cache"]:
+                res.add_viol(dict(key="invariant:C14/fault/geoid-threadsafe-object-delivered-without-full-cache", **{"class": "fault-construction"}, detail=det, **common))
+            for w in js["witness"]:
+                res.add_viol(dict(key="determinism:C14/fault/geoid-threadsafe-object-delivered-after-failed-allocation", **{"class": "fault-construction"},
+                                  detail=dict(det, **w), **common))
+            res.classes["fault-construction/" + oc] = res.classes.get("fault-construction/" + oc, 0) + 1
+        res.evals += evals + n
+        res.nontrivial += n
+        res.cases += n
+        nrep, keys, nbugs = 0, {}, 0
+        if flavour == "tsan":
+            files = [os.path.join(wd, "%d.err" % i) for i in range(n)]
+            cm = {os.path.join(wd, "%d.err" % i): ("fault", i, seed) for i in range(n)}
+            nrep, keys, nbugs = harvest(res, files, label, flavour, "harness/C14_fault.cpp", seed, "fault", cm)
+        out[flavour] = dict(processes=n, outcomes=outcomes, allocation_faults_injected=hit, concurrent_evaluations_on_delivered_objects=evals, mismatches=mism,
+                            tsan_reports=nrep, tsan_keys=keys, tsan_harness_only_reports=nbugs, wall_s=round(time.time() - t0, 1))
+        res.runs.append(dict(run=label, flavour=flavour, processes=n, wall_s=round(time.time() - t0, 1)))
+    return out
 
 
 # ------------------------------------------------------------------------------------------ fresh-process trials of the harmonic family
@@ -593,10 +668,13 @@ def extra(res, tier, seed, workdir):
     # (2b) harmonic family: first evaluation in the process made concurrently (one process per trial)
     fr = run_fresh(res, tier, seed, workdir)
     tsan["fresh_harmonic"] = fr
+    # (2b') thread-safe Geoid constructed under allocation faults (one process per trial)
+    fa = run_fault(res, tier, seed, workdir)
+    tsan["fault_construction"] = fa
     res.extra["tsan"] = tsan
     # (2c) fresh-process "alone" reference for a sample covering every operation
     res.extra["alone_reference"] = alone_reference(res, tier, seed, workdir)
-    res.extra["tsan_reports_total"] = nrep + ft.get("tsan", {}).get("tsan_reports", 0) + fr.get("tsan", {}).get("tsan_reports", 0)
+    res.extra["tsan_reports_total"] = nrep + ft.get("tsan", {}).get("tsan_reports", 0) + fr.get("tsan", {}).get("tsan_reports", 0) + fa.get("tsan", {}).get("tsan_reports", 0)
     res.extra["determinism_mismatches"] = sum(n for k, n in res.violcounts.items() if k.startswith("determinism:") or k.startswith("alone:"))
     # overlap evidence: move the bulky per-pair counters out of 'events'
     ov = {k: v for k, v in res.events.items() if k.startswith("overlap-")}
